@@ -104,7 +104,7 @@ class C16(Prop):
             "hashlib, each file hashed twice with a content change in between (same size and mtime / new mtime / new size), read sizes "
             "vs the model's trace; add (incl. x/../ over real, symlinked and missing directories): relative paths with ./ // x/../ (and absolute ones) with and without a given "
             "value; sections: typed/bare entries of lengths 31..65 in every order loaded by the real TreeInfo; tables written and read "
-            "back; add_checksum sequences; non-trivial = distinct case")
+            "back; add_checksum sequences over mixed-case / same-name-two-spellings type names; non-trivial = distinct case")
     assumptions = ["hashlib objects satisfy update(a); update(b) == update(a+b) and update(b'') is the identity (hypotheses of C16_chunked; "
                    "exercised by every digest case)",
                    "the INI layer delivers the [checksums] section as (path, raw value) pairs; the model is fed parser.items() of the "
@@ -228,10 +228,17 @@ class C16(Prop):
                 table[key] = [t, v]
             yield {"op": "roundtrip", "args": {"table": sorted(table.items()), "seed": rng.randrange(5)}}
         # 5. add_checksum sequences
+        for ops, initial in [([["SHA256", "aa"], ["SHA256", "bb"]], []), ([["sha256", "aa"], ["SHA256", "bb"]], []), ([["SHA256", ""]], [["sha256", "aa"]]),
+                             ([["Md5", "aa"], ["md5", "bb"], ["MD5", "cc"], ["Md5", "aa"], ["Md5", "dd"]], []), ([["SHA256", "bb"], ["SHA256", None]], [["sha256", "aa"]])]:
+            yield {"op": "add_checksum_seq", "args": {"initial": initial, "ops": ops}}
         for _ in range(max(60, budget // 5)):
             vals = ["aa", "bb", "", None, "%032x" % rng.getrandbits(128)]
-            ops = [[rng.choice(["md5", "sha1", "sha256"]), rng.choice(vals)] for _ in range(rng.randint(1, 7))]
-            initial = [[t, rng.choice(vals[:3])] for t in rng.sample(["md5", "sha1", "sha256"], rng.randint(0, 2))]
+            # algorithm names as hashlib accepts them: mixed case, the same name in two spellings within one sequence, names
+            # that differ only in case - the library treats every exact spelling as its own key
+            pool = rng.choice([["md5", "sha1", "sha256"], ["sha256", "SHA256"], ["Md5", "md5", "MD5"], ["SHA256"], ["sha1", "Sha1", "sha256", "SHA256"],
+                               ["md5", "sha1", "sha256", "SHA256", "Md5", "sha512", "SHA512"]])
+            ops = [[rng.choice(pool), rng.choice(vals)] for _ in range(rng.randint(1, 7))]
+            initial = [[t, rng.choice(vals[:3])] for t in rng.sample(sorted(set(x.lower() for x in pool)), rng.randint(0, min(2, len(set(x.lower() for x in pool)))))]
             yield {"op": "add_checksum_seq", "args": {"initial": initial, "ops": ops}}
 
     # ------------------------------------------------------------------ real side
